@@ -53,6 +53,13 @@ func forEachEngineProgram(r *harness.Run, plans []famPlan, c03MaxN int, f func(w
 			completed = n
 		}
 	}
+	seqLen := 2
+	if r.Tier == "thorough" {
+		seqLen = 3
+	}
+	if !r.Expired() {
+		forEachSequenceProgram(r, seqLen, f)
+	}
 	r.Set("switch_entries_completed", completed)
 	if completed < c03MaxN {
 		r.NotExhaustive(fmt.Sprintf("switch programs completed entries<=%d of planned <=%d", completed, c03MaxN))
@@ -65,4 +72,124 @@ func enginePlans(tier string) ([]famPlan, int) {
 		return []famPlan{{fams[0], 4}, {fams[1], 6}, {fams[2], 6}, {fams[3], 6}}, 5
 	}
 	return []famPlan{{fams[0], 3}, {fams[1], 5}, {fams[2], 4}, {fams[3], 4}}, 3
+}
+
+// ---------------------------------------------------------------------------
+// Statement sequences: every sequence of <= L statement templates, which
+// exercises the sequential composition of constructs (chunk bookkeeping
+// across statements) rather than nesting.
+
+func seqTemplates() []func(k int) model.Stmt {
+	n := func(p string, k int) string { return fmt.Sprintf("%s%d", p, k) }
+	fl := func(p string, k int) *model.Cond { return mflag(n(p, k)) }
+	cmd := func(p string, k int) model.Stmt { return mcmd(n(p, k)) }
+	ifBreak := func(p string, k int) model.Stmt {
+		return model.Stmt{Kind: model.SIf, Arms: []model.Arm{{Cond: fl(p, k), Body: []model.Stmt{{Kind: model.SBreak}}}}}
+	}
+	return []func(k int) model.Stmt{
+		func(k int) model.Stmt { return cmd("c", k) },
+		func(k int) model.Stmt {
+			return model.Stmt{Kind: model.SIf, Arms: []model.Arm{{Cond: fl("F", k), Body: []model.Stmt{cmd("c", k)}}}}
+		},
+		func(k int) model.Stmt {
+			return model.Stmt{Kind: model.SIf, Arms: []model.Arm{{Cond: fl("F", k), Body: []model.Stmt{cmd("c", k)}}}, HasElse: true, Else: []model.Stmt{cmd("d", k)}}
+		},
+		func(k int) model.Stmt {
+			return model.Stmt{Kind: model.SIf, Arms: []model.Arm{{Cond: fl("F", k), Body: []model.Stmt{cmd("c", k)}}, {Cond: fl("G", k), Body: nil}}, HasElse: true, Else: []model.Stmt{cmd("d", k)}}
+		},
+		func(k int) model.Stmt {
+			return model.Stmt{Kind: model.SWhile, Cond: fl("W", k), Body: []model.Stmt{cmd("c", k)}}
+		},
+		func(k int) model.Stmt {
+			return model.Stmt{Kind: model.SWhile, Cond: fl("W", k), Body: []model.Stmt{cmd("c", k), ifBreak("B", k)}}
+		},
+		func(k int) model.Stmt {
+			return model.Stmt{Kind: model.SWhileInf, Body: []model.Stmt{cmd("c", k), {Kind: model.SBreak}}}
+		},
+		func(k int) model.Stmt {
+			return model.Stmt{Kind: model.SDoWhile, Cond: fl("D", k), Body: []model.Stmt{cmd("c", k)}}
+		},
+		func(k int) model.Stmt {
+			return model.Stmt{Kind: model.SDoWhile, Cond: &model.Cond{Kind: model.CLeaf, Leaf: model.LeafForm(20, k)}, Body: []model.Stmt{
+				{Kind: model.SIf, Arms: []model.Arm{{Cond: fl("K", k), Body: []model.Stmt{{Kind: model.SContinue}}}}}, cmd("c", k)}}
+		},
+		func(k int) model.Stmt {
+			return model.Stmt{Kind: model.SSwitch, Operand: mvar(n("X", k)), Cases: []model.Case{{Val: 1, Body: []model.Stmt{cmd("c", k)}}}}
+		},
+		func(k int) model.Stmt {
+			return model.Stmt{Kind: model.SSwitch, Operand: mvar(n("X", k)), Cases: []model.Case{{Val: 1, Body: []model.Stmt{cmd("c", k), {Kind: model.SBreak}}}, {Default: true, Body: []model.Stmt{cmd("d", k)}}}}
+		},
+		func(k int) model.Stmt {
+			return model.Stmt{Kind: model.SSwitch, Operand: mvar(n("X", k)), Cases: []model.Case{{Default: true, Body: []model.Stmt{cmd("d", k)}}, {Val: 1}, {Val: 2}}}
+		},
+		func(k int) model.Stmt {
+			return model.Stmt{Kind: model.SSwitch, Operand: mvar(n("X", k)), Cases: []model.Case{{Val: 1}, {Val: 2, Body: []model.Stmt{cmd("c", k)}}, {Val: 3}}}
+		},
+		func(k int) model.Stmt {
+			return model.Stmt{Kind: model.SSwitch, Operand: mvar(n("X", k)), Cases: []model.Case{{Default: true}, {Val: 1, Body: []model.Stmt{cmd("c", k)}}, {Val: 2, Body: []model.Stmt{cmd("e", k)}}}}
+		},
+		func(k int) model.Stmt { return model.Stmt{Kind: model.SLabel, Name: n("L", k)} },
+		func(k int) model.Stmt { return model.Stmt{Kind: model.SGoto, Name: "EXT"} },
+		func(k int) model.Stmt {
+			return model.Stmt{Kind: model.SIf, Arms: []model.Arm{{Cond: &model.Cond{Kind: model.COr, L: &model.Cond{Kind: model.CAnd, L: fl("P", k), R: fl("Q", k)}, R: fl("R", k)}, Body: []model.Stmt{cmd("c", k)}}}}
+		},
+		func(k int) model.Stmt { return model.Stmt{Kind: model.SEnd} },
+		func(k int) model.Stmt {
+			return model.Stmt{Kind: model.SIf, Arms: []model.Arm{{Cond: fl("F", k), Body: []model.Stmt{{Kind: model.SReturn}}}}}
+		},
+		func(k int) model.Stmt {
+			return model.Stmt{Kind: model.SWhile, Cond: fl("W", k), Body: []model.Stmt{{Kind: model.SSwitch, Operand: mvar(n("X", k)), Cases: []model.Case{
+				{Val: 1, Body: []model.Stmt{{Kind: model.SBreak}}},
+				{Default: true, Body: []model.Stmt{{Kind: model.SIf, Arms: []model.Arm{{Cond: fl("K", k), Body: []model.Stmt{{Kind: model.SContinue}}}}}, cmd("c", k)}}}}}}
+		},
+		func(k int) model.Stmt {
+			return model.Stmt{Kind: model.SIf, Arms: []model.Arm{{Cond: fl("F", k), Body: []model.Stmt{{Kind: model.SWhile, Cond: fl("W", k), Body: []model.Stmt{cmd("c", k)}}}}}, HasElse: true,
+				Else: []model.Stmt{{Kind: model.SSwitch, Operand: mvar(n("X", k)), Cases: []model.Case{{Val: 1, Body: []model.Stmt{cmd("d", k)}}, {Val: 2}}}}}
+		},
+		func(k int) model.Stmt {
+			return model.Stmt{Kind: model.SWhile, Cond: fl("W", k), Body: []model.Stmt{cmd("c", k), {Kind: model.SBreak}, {Kind: model.SLabel, Name: n("M", k)}, cmd("e", k)}}
+		},
+	}
+}
+
+// seqCount is the number of template sequences of length 1..maxLen.
+func seqCount(maxLen int) uint64 {
+	t := uint64(len(seqTemplates()))
+	total, pow := uint64(0), uint64(1)
+	for l := 1; l <= maxLen; l++ {
+		pow *= t
+		total += pow
+	}
+	return total
+}
+
+// seqProgram builds the idx-th sequence (shorter sequences first).
+func seqProgram(idx uint64) *model.Script {
+	ts := seqTemplates()
+	t := uint64(len(ts))
+	l, pow := 1, t
+	for idx >= pow {
+		idx -= pow
+		pow *= t
+		l++
+	}
+	body := make([]model.Stmt, l)
+	for i := 0; i < l; i++ {
+		body[i] = ts[idx%t](i)
+		idx /= t
+	}
+	return &model.Script{Name: "S", Body: body}
+}
+
+// forEachSequenceProgram enumerates every template sequence of length <= maxLen.
+func forEachSequenceProgram(r *harness.Run, maxLen int, f func(w int, p engineProgram)) {
+	total := seqCount(maxLen)
+	done := r.Parallel(total, func(w int, idx uint64) {
+		f(w, engineProgram{Desc: fmt.Sprintf("sequence idx=%d", idx), Script: seqProgram(idx)})
+	})
+	r.Set("sequence_programs", total)
+	r.Set("sequence_max_length", maxLen)
+	if !done {
+		r.NotExhaustive("statement sequences not completed")
+	}
 }
